@@ -8,7 +8,7 @@
 (* satisfies the invariants, and shows that every action of WorkspaceCore   *)
 (* leads to a state that satisfies them again.                              *)
 (*   apalache-mc check --cinit=ConstInit --init=Init    --inv=IndInv --length=0 Apa_Workspace.tla                            *)
-(*   apalache-mc check --cinit=ConstInit --init=IndInit --inv=IndInv --length=1 Apa_Workspace.tla                            *)
+(*   apalache-mc check --cinit=ConstInit --init=IndInit --next=NextL --inv=IndInv --length=1 Apa_Workspace.tla              *)
 (* (run by tools/apalache_workspace.sh; an optional extra, not a registered *)
 (* check: Apalache needs minutes)                                           *)
 (***************************************************************************)
